@@ -1,4 +1,8 @@
-//! impl driver for the "config" stream (C12, C19).
+//! impl driver for the "config" stream (C12, C19, and the loader part of C17).
+//!
+//! With VERIF_CASE_STACK set (C17) every case runs in its own thread with that stack under a
+//! watchdog, flushed per case (vthread.rs: Panic / Hang / driver death are reported for exactly
+//! the case that caused them); without it the generic vmain loop is used (C12, C19).
 #![allow(dead_code)]
 #[path = "config.rs"]
 mod config;
@@ -6,10 +10,20 @@ mod config;
 mod util;
 #[path = "vmain.rs"]
 mod vmain;
+#[path = "vthread.rs"]
+mod vthread;
 
-fn main() {
-    vmain::run(|stream, toks| match stream {
+fn dispatch(stream: &str, toks: &[&str]) -> String {
+    match stream {
         "config" => config::handle(toks),
         _ => "IMPL-EXN:unknown-stream".to_string(),
-    });
+    }
+}
+
+fn main() {
+    if std::env::var_os("VERIF_CASE_STACK").is_some() {
+        vthread::run(dispatch);
+    } else {
+        vmain::run(dispatch);
+    }
 }
